@@ -134,7 +134,7 @@ def main():
                 t = p.read_text()
                 import re
 
-                t2 = re.sub(r"/tmp/wt3?_C\d\d", str(wt), t)
+                t2 = re.sub(r"/tmp/wt\d?_C\d\d", str(wt), t)
                 if t2 != t:
                     p.write_text(t2)
         rc_clean, out_clean = run_demo(wt, demo.name, src)
@@ -166,7 +166,7 @@ def main():
                 import re
 
                 t = p.read_text()
-                t2 = re.sub(r"/tmp/wt3?_C\d\d", "$WT", t) if p.suffix == ".md" else t
+                t2 = re.sub(r"/tmp/wt\d?_C\d\d", "$WT", t) if p.suffix == ".md" else t
                 if t2 != t:
                     p.write_text(t2)
         caught = sorted(log["checks_fired"])
